@@ -16,7 +16,7 @@ import signal
 import subprocess
 import time
 
-from common import Check, PY, SRC
+from common import Check, PY, SRC, HARNESS_FAULT
 from sched_checks import MODEL_TARGETS
 from sched_util import Case, Task, run_impl
 import implrun
@@ -71,6 +71,11 @@ def sweep(chk, case, ks, sigs):
         sig = sigs[k % len(sigs)]
         obs = run_impl(case, inject={"k": k, "sig": sig, "vanish_first": k % 3 == 0, "vanish_last": k % 2 == 1})
         chk.coverage["evaluations"] += 1
+        if obs.crash is not None and obs.crash.startswith(HARNESS_FAULT):
+            chk.violation("tie-broken", "the interrupt harness no longer fits the implementation's internals: %s" % obs.crash[:300],
+                          {"theorem_or_tie": "interrupt harness (harness/sched_util.py run_impl/run_with_injection) vs executor.py / sigchld.py internals", "detail": obs.crash},
+                          found_input=False)
+            return n
         if obs.crash is not None:
             f = (obs.abort or {}).get("fired") or {}
             chk.violation("impl-violation", "after %s at %s:%s line %s the run did not end cleanly: %s" % (signal.Signals(sig).name, f.get("where"), f.get("func"), f.get("line"), obs.crash[:300]),
